@@ -420,7 +420,17 @@ fn percent(st: &mut Stats, quick: bool) {
     });
     st.merge(part);
     let alpha = ['%', '0', '9', 'a', 'F', 'g', '+', ' ', 'é'];
-    let ws = crate::props::c05::words(&alpha, if quick { 5 } else { 6 });
+    let mut ws = crate::props::c05::words(&alpha, if quick { 5 } else { 6 });
+    // every escape `%XY` with X, Y over all printable ASCII (every hex digit in either case, every non-digit),
+    // alone, embedded, and as the second of two escapes
+    for x in 0x20u8..0x7f {
+        for y in 0x20u8..0x7f {
+            let e = format!("%{}{}", x as char, y as char);
+            ws.push(e.chars().collect());
+            ws.push(format!("a{}b", e).chars().collect());
+            ws.push(format!("%41{}", e).chars().collect());
+        }
+    }
     let part = par(&ws, |w, s| {
         let t: String = w.iter().collect();
         s.states += 1;
